@@ -101,9 +101,9 @@ def scripts(quick, tmp):
                         m, a, k = CALLS[h]
                         to = (k.get('timeout', a[0] if a else 0) or 0)
                         sc += [{'op': 'call', 'var': 'w', 'method': m, 'args': a, 'kwargs': k, 'timeout': 4 * to + 3 + 12, 'h': h}] + \
-                              ([{'op': 'child_dead', 'var': 'w', 'kind': kind, 'h': 'probe0'}] if h == 'tf' else []) + [
+                              ([{'op': 'child_dead', 'var': 'w', 'kind': kind, 'h': 'probe0', 'exiting_counts': True}] if h == 'tf' else []) + [
                                # (after a forced termination the signal has been sent: under load the process may need a moment to go)
-                               dict({'op': 'child_dead', 'var': 'w', 'kind': kind, 'h': 'probe'}, **({'within': 2.0} if h == 'tf' else {}))]
+                               dict({'op': 'child_dead', 'var': 'w', 'kind': kind, 'h': 'probe', 'exiting_counts': True}, **({'within': 2.0} if h == 'tf' else {}))]
                     out.append({'script': sc, 'kind': kind, 'behaviour': beh, 'history': list(hist), 'npre': npre})
     return out
 
